@@ -62,7 +62,7 @@ Proof. reflexivity. Qed.
 Lemma el_or_unfold k1 x rest2 : EL (S_ "OR" :: k1 :: x :: rest2) =
   if ra k1 then
     match rest2 with
-    | [] => None
+    | [] => Some false
     | k2 :: rest3 =>
         if ra k2 then
           match rest3 with
